@@ -410,8 +410,10 @@ class HyperElastic(_Simu):
             iter = {}
 
         iter["displacement"] = self.displacement
-        if self.algo in AlgoType.Get_Hyperbolic_Types():
+        # every field the running time scheme carries from one step to the next
+        if self.algo in AlgoType.Get_Hyperbolic_and_Parabolic_Types():
             iter["speed"] = self._Get_v_n(self.problemType)
+        if self.algo in AlgoType.Get_Hyperbolic_Types():
             iter["accel"] = self._Get_a_n(self.problemType)
         if self.__nPts_e is not None:  # per-element point counts, quadrature only
             iter["nPts_e"] = self.__nPts_e
@@ -426,15 +428,14 @@ class HyperElastic(_Simu):
 
         u = results["displacement"]
 
-        if (
-            self.algo in AlgoType.Get_Hyperbolic_Types()
-            and "speed" in results
-            and "accel" in results
-        ):
+        algo = self.algo
+        if algo in AlgoType.Get_Hyperbolic_and_Parabolic_Types() and "speed" in results:
             v = results["speed"]
-            a = results["accel"]
         else:
             v = np.zeros_like(u)
+        if algo in AlgoType.Get_Hyperbolic_Types() and "accel" in results:
+            a = results["accel"]
+        else:
             a = np.zeros_like(u)
 
         self._Set_solutions(self.problemType, u, v, a)
